@@ -68,5 +68,6 @@ package keeper
 //@ property C03 C05
 //@ ensures proposer: err == nil ==> req.GetProposer() == old(st.relayer.Relayer.Proposer)
 //@ ensures accepted_flag: err == nil ==> st.relayer.Relayer.ProposerAccepted && st.relayer.Relayer.Proposer == old(st.relayer.Relayer.Proposer) && st.relayer.Relayer.Epoch == old(st.relayer.Relayer.Epoch) && st.relayer.Relayer.Voters == old(st.relayer.Relayer.Voters) && st.relayer.Relayer.LastElected == old(st.relayer.Relayer.LastElected)
+//@ ensures result_is_record: err == nil ==> result.GetEpoch() == old(st.relayer.Relayer.Epoch) && result.GetProposer() == old(st.relayer.Relayer.Proposer)
 //@ ensures reject_changes_nothing: err != nil ==> unchanged(st.relayer.Relayer)
 //@ modifies st.relayer.Relayer
